@@ -477,6 +477,41 @@ def zipReplace (it : Iter) (a1 a2 : ArraySized) (e1 e2 : Buf Nat) (m : Mem) :
   let r2 := replaceAt a2 e2 (wdec it.index) r1.2.2.2
   (.ok, some (r1.2.1.getD [], r2.2.1.getD []), r1.2.2.1, r2.2.2.1, r2.2.2.2)
 
+/-! ### a zip iterator whose two sides are the *same* array (`ar1 == ar2`): the C functions run
+unchanged, so the second half of every call sees what the first half did to the array -/
+
+/-- `zip_iter_remove(a, a)`: two `remove_at(index - 1)` calls on the same array; the second one removes
+the element that moved into the gap, or is rejected (its status is ignored and `out2` stays as the
+caller left it) when the first removal took the last element -/
+def zipRemoveSame (it : Iter) (a : ArraySized) (m : Mem) : Stat × Option (List Nat × List Nat) × Iter × ArraySized × Mem :=
+  if wdec it.index ≥ a.size || wdec it.index ≥ a.size then (.errOutOfRange, none, it, a, m) else
+  if !it.lastRemoved then
+    let r1 := removeAt a (wdec it.index) m
+    let r2 := removeAt r1.2.2.1 (wdec it.index) r1.2.2.2
+    (.ok, some (r1.2.1.getD [], r2.2.1.getD []), { index := wdec it.index, lastRemoved := true }, r2.2.2.1, r2.2.2.2)
+  else (.errValueNotFound, none, it, a, m)
+
+/-- `zip_iter_add(a, a, e1, e2)`: one growth check (the second is the same test on the same array),
+then two `add_at(index)` calls on the same array, whose statuses are ignored — the second one may
+itself have to grow the array -/
+def zipAddSame (it : Iter) (a : ArraySized) (e1 e2 : Buf Nat) (m : Mem) : Stat × Iter × ArraySized × Mem :=
+  let index := it.index
+  let x1 := if a.size = a.capacity then expandCapacity a m else (.ok, a, m)
+  if x1.1 ≠ .ok then (.errAlloc, it, x1.2.1, x1.2.2) else
+  let x2 := if x1.2.1.size = x1.2.1.capacity then expandCapacity x1.2.1 x1.2.2 else (.ok, x1.2.1, x1.2.2)
+  if x2.1 ≠ .ok then (.errAlloc, it, x2.2.1, x2.2.2) else
+  let r1 := addAt x2.2.1 e1 index x2.2.2
+  let r2 := addAt r1.2.1 e2 index r1.2.2
+  (.ok, { it with index := it.index + 1 }, r2.2.1, r2.2.2)
+
+/-- `zip_iter_replace(a, a, e1, e2)`: two `replace_at(index - 1)` calls on the same array -/
+def zipReplaceSame (it : Iter) (a : ArraySized) (e1 e2 : Buf Nat) (m : Mem) :
+    Stat × Option (List Nat × List Nat) × ArraySized × Mem :=
+  if wdec it.index ≥ a.size || wdec it.index ≥ a.size then (.errOutOfRange, none, a, m) else
+  let r1 := replaceAt a e1 (wdec it.index) m
+  let r2 := replaceAt r1.2.2.1 e2 (wdec it.index) r1.2.2.2
+  (.ok, some (r1.2.1.getD [], r2.2.1.getD []), r2.2.2.1, r2.2.2.2)
+
 /-! ## histories over the core API -/
 abbrev Elem := List Nat
 open Spec.SSeq (Op Out)
